@@ -134,16 +134,18 @@ mod protected {
                 {
                     let mut arr = HeapBytes::default();
                     let mut idx: usize = 0;
-                    let size_hint = seq.size_hint().unwrap_or(1);
+                    let size_hint = seq.size_hint().unwrap_or(0);
                     arr.resize(size_hint, 0);
 
                     while let Some(elem) = seq.next_element()? {
-                        if idx > arr.len() {
-                            arr.resize(idx, 0);
+                        if idx >= arr.len() {
+                            arr.resize(std::cmp::max(idx + 1, arr.len() * 2), 0);
                         }
                         arr[idx] = elem;
                         idx += 1;
                     }
+                    // the size hint is only a hint: keep exactly what was read
+                    arr.resize(idx, 0);
 
                     Ok(arr)
                 }
@@ -180,16 +182,18 @@ mod protected {
                 {
                     let mut arr = HeapBytes::gen_locked().expect("couldn't create locked bytes");
                     let mut idx: usize = 0;
-                    let size_hint = seq.size_hint().unwrap_or(1);
+                    let size_hint = seq.size_hint().unwrap_or(0);
                     arr.resize(size_hint, 0);
 
                     while let Some(elem) = seq.next_element()? {
-                        if idx > arr.len() {
-                            arr.resize(idx, 0);
+                        if idx >= arr.len() {
+                            arr.resize(std::cmp::max(idx + 1, arr.len() * 2), 0);
                         }
                         arr[idx] = elem;
                         idx += 1;
                     }
+                    // the size hint is only a hint: keep exactly what was read
+                    arr.resize(idx, 0);
 
                     Ok(arr)
                 }
